@@ -178,3 +178,115 @@ def gen_defs_table(rng, injective=True, big=False):
             else:           # exact duplicate
                 entries.insert(rng.below(len(entries) + 1), Entry(e.op, list(e.chars), list(e.dots)))
     return entries
+
+
+# ---------------------------------------------------------------- multipass rules (C06 grammar)
+
+class PassRule:
+    """stage: 'correct' | 'pass2' | 'pass3' | 'pass4'; items: ('lit', [v..]) | ('look', k) | '[' | ']';
+    action: ('lit', [v..]) | ('omit',) | ('copy',); values are characters for correct, cells (with 0x8000) otherwise"""
+
+    def __init__(self, stage, items, action, direction="noback"):
+        self.stage, self.items, self.action, self.direction = stage, items, action, direction
+
+    def _lit(self, vs):
+        if self.stage == "correct":
+            return '"' + "".join(char_text(c) if c != 32 else "\\s" for c in vs) + '"'
+        return "@" + "-".join(dots_text(v & 0x7fff) for v in vs)
+
+    def text(self):
+        t = ""
+        for it in self.items:
+            if it in ("[", "]"):
+                t += it
+            elif it[0] == "look":
+                t += "_%d" % it[1]
+            else:
+                t += self._lit(it[1])
+        a = self.action
+        at = self._lit(a[1]) if a[0] == "lit" else "?" if a[0] == "omit" else "*"
+        return "%s %s %s %s" % (self.direction, self.stage, t, at)
+
+    def model_line(self, idx):
+        st = {"correct": 0, "pass2": 2, "pass3": 3, "pass4": 4}[self.stage]
+        parts = []
+        for it in self.items:
+            if it == "[":
+                parts.append("O")
+            elif it == "]":
+                parts.append("C")
+            elif it[0] == "look":
+                parts.append("B %d" % it[1])
+            else:
+                parts.append("L %d %s" % (len(it[1]), " ".join(map(str, it[1]))))
+        a = self.action
+        ap = "L %d %s" % (len(a[1]), " ".join(map(str, a[1]))) if a[0] == "lit" else "Q" if a[0] == "omit" else "S"
+        return "PR %d %d %s | %s" % (st, idx, " ".join(parts), ap)
+
+
+def gen_pass_rule(rng, stage, values, direction="noback", allow_lookback=True, risky=False):
+    items = []
+    lb = 0
+    if allow_lookback and rng.chance(0.25):
+        lb = rng.range(1, 2)
+        items.append(("look", lb))
+    ng = rng.range(1, 3)
+    groups = [[rng.choice(values) for _ in range(rng.range(1, 2))] for _ in range(ng)]
+    br = rng.chance(0.6)
+    i = j = 0
+    if br:
+        i = rng.range(0, ng)
+        j = rng.range(i, ng)
+        if lb and not risky:
+            while i < ng and sum(len(g) for g in groups[:i]) < lb:
+                i += 1
+            j = max(j, i)
+            if sum(len(g) for g in groups[:i]) < lb:
+                br = False
+    if lb and not br and not risky and sum(len(g) for g in groups) < lb:
+        groups.append([rng.choice(values) for _ in range(2)])
+    for k, g in enumerate(groups):
+        if br and k == i:
+            items.append("[")
+        if br and k == j:
+            items.append("]")
+        items.append(("lit", g))
+    if br and i == len(groups):
+        items.append("[")
+    if br and j == len(groups):
+        items.append("]")
+    a = rng.below(10)
+    if a < 6:
+        act = ("lit", [rng.choice(values) for _ in range(rng.range(1, 3))])
+    elif a < 8:
+        act = ("omit",)
+    else:
+        act = ("copy",)
+    return PassRule(stage, items, act, direction)
+
+
+def gen_c06_table(rng, risky=False):
+    """one-to-one main pass over a small alphabet + 0-3 literal rules in each of correct/pass2/pass3/pass4"""
+    letters = [ord(c) for c in "abcd"]
+    cells = rng.sample(range(1, 64), 4)
+    entries = [Entry("space", [32], [0])] + [Entry("letter", [c], [d]) for c, d in zip(letters, cells)]
+    rng.shuffle(entries)
+    cellvals = [0x8000 | d for d in cells]
+    rules = []
+    for stage in ("correct", "pass2", "pass3", "pass4"):
+        vals = letters if stage == "correct" else cellvals
+        extra = [32] if stage == "correct" else [0x8000, 0x8000 | 63]
+        for _ in range(rng.choice([0, 0, 1, 2, 3])):
+            r = gen_pass_rule(rng, stage, vals if rng.chance(0.8) else vals + extra, risky=risky)
+            rules.append(r)
+    rng.shuffle(rules)
+    return entries, rules, letters
+
+
+def pass_table_text(entries, rules):
+    return table_text(entries) + "".join(r.text() + "\n" for r in rules)
+
+
+def pass_model_lines(entries, rules):
+    base = len(entries) + 1      # rule index: built-in 0, then entries, then pass rules in file order
+    return model_table_lines(entries) + [r.model_line(base + k) for k, r in enumerate(rules)]
